@@ -1014,3 +1014,65 @@ Section AnyScalar.
     rewrite <- (upd_kempty_r SC k1) at 1. apply parse_from_upd_noimp; assumption.
   Qed.
 End AnyScalar.
+(* ---- the fuel of parse_all (number of cards) is enough for every chain ---- *)
+Lemma lookup_in n tbl : forall c, lookup n tbl = Some c -> In n (map fst tbl).
+Proof.
+  induction tbl as [|[m c'] r IH]; intros c; cbn; [discriminate|].
+  destruct (lookup n r) eqn:E.
+  - intros _. right. eapply IH. reflexivity.
+  - destruct (n =? m)%Z eqn:E2; [|discriminate].
+    intros _. left. apply Z.eqb_eq in E2. congruence.
+Qed.
+
+Lemma denotes_fun tbl n d x : denotes tbl n d x -> forall d' x', denotes tbl n d' x' -> d = d' /\ x = x'.
+Proof.
+  induction 1 as [n c Hl Hc|n m mat g o d x Hl Hs Hd IH]; intros d' x' H'.
+  - inversion H' as [n' c' Hl' Hc'|n' m' mat' g' o' d'' x'' Hl' Hs' Hd']; subst.
+    + rewrite Hl in Hl'. inversion Hl'; subst. split; reflexivity.
+    + rewrite Hl in Hl'. inversion Hl'; subst.
+      unfold is_explicit, geom_of in Hc. cbn [fst snd] in Hc. congruence.
+  - inversion H' as [n' c' Hl' Hc'|n' m' mat' g' o' d'' x'' Hl' Hs' Hd']; subst.
+    + rewrite Hl in Hl'. inversion Hl'; subst.
+      unfold is_explicit, geom_of in Hc'. cbn [fst snd] in Hc'. congruence.
+    + rewrite Hl in Hl'. inversion Hl'; subst. rewrite Hs in Hs'. inversion Hs'; subst.
+      destruct (IH _ _ Hd') as [-> ->]. split; reflexivity.
+Qed.
+
+Lemma denotes_chain tbl n d x : denotes tbl n d x ->
+  exists ids, List.length ids = S d /\ NoDup ids /\ incl ids (map fst tbl) /\
+              forall m, In m ids -> exists d' x', (d' <= d)%nat /\ denotes tbl m d' x'.
+Proof.
+  induction 1 as [n c Hl Hc|n m mat g o d x Hl Hs Hd IH].
+  - exists [n]. repeat split.
+    + constructor; [intros []|constructor].
+    + intros k [<-|[]]. eapply lookup_in; eassumption.
+    + intros k [<-|[]]. exists 0%nat, c. split; [lia|]. constructor; assumption.
+  - destruct IH as (ids & Hlen & Hnd & Hin & Hall).
+    assert (Hn : denotes tbl n (S d) (apply_but x o)) by (econstructor; eassumption).
+    exists (n :: ids). repeat split.
+    + cbn. now rewrite Hlen.
+    + constructor; [|exact Hnd]. intros Hmem.
+      destruct (Hall n Hmem) as (d' & x' & Hle & Hd').
+      destruct (denotes_fun _ _ _ _ Hn _ _ Hd') as [E _]. lia.
+    + intros k [<-|Hk]; [eapply lookup_in; eassumption|apply Hin, Hk].
+    + intros k [<-|Hk].
+      * exists (S d), (apply_but x o). split; [lia|exact Hn].
+      * destruct (Hall k Hk) as (d' & x' & Hle & Hd'). exists d', x'. split; [lia|exact Hd'].
+Qed.
+
+Theorem denotes_depth tbl n d x : denotes tbl n d x -> (d < List.length tbl)%nat.
+Proof.
+  intros H. destruct (denotes_chain tbl n d x H) as (ids & Hlen & Hnd & Hin & _).
+  pose proof (NoDup_incl_length Hnd Hin) as Hle.
+  rewrite map_length in Hle. lia.
+Qed.
+
+(* parse_all's own call: no fuel hypothesis left *)
+Theorem like_in_parse_all {T} (SC : Scalar T) (e : env (T:=T)) tbl rank lat mat0 g0 o n d x :
+  search_like (lower g0) = Some n -> denotes tbl n d x ->
+  parse_one_cell SC (List.length tbl) e tbl rank lat (mat0, g0, o) =
+  worker SC e rank lat (apply_but x o).
+Proof.
+  intros Hg Hd. apply (like_equals_expanded_text SC e tbl _ rank lat mat0 g0 o n d x Hg Hd).
+  eapply denotes_depth; eassumption.
+Qed.
